@@ -781,7 +781,9 @@ def ia32_reg_8_inv(obj, Mod, RM, REG, data):
 @ispec_ia32("*>[ {8e} /r ]", mnemonic="MOV", _inv=False)
 def ia32_arpl(obj, Mod, REG, RM, data, _inv):
     obj.misc["opdsz"] = 16
-    op2, data = getModRM(obj, Mod, RM, data)
+    # a segment selector is 16 bits wide whatever REX.W says:
+    W, R, X, B = getREX(obj)
+    op2, data = getModRM(obj, Mod, RM, data, REX=(0, R, X, B))
     if REG == 6 or REG == 7:
         raise InstructionError(obj)
     op1 = [env.es, env.cs, env.ss, env.ds, env.fs, env.gs][REG]
